@@ -58,7 +58,15 @@ Inductive case :=
 | KSeq (lit : bytes) (items : list sitem) (gets : list (bytes * option (bytes * bytes * bytes)))
 | KSeqF (terms : list fterm) (orc : re_oracle) (items : list sitem)
         (gets : list (bytes * option (bytes * bytes * bytes)))
-| KTidySeq (calls : list (bytes * b64 * (b64 * bytes))).   (* Tidy(v, u) = (tv, tu), in call order *)
+| KTidySeq (calls : list (bytes * b64 * (b64 * bytes)))    (* Tidy(v, u) = (tv, tu), in call order *)
+(** a text LONGER than the line scanner's buffer through ONE Reader / ONE
+    Filter: [items] is what every record read when it was delivered,
+    [items_late] what the caller's retained copies (Result.Clone after Apply,
+    the *UnitMetadata pointers) read after the whole text has been scanned,
+    [full_late] the values of the retained Result.Clone taken before the filter
+    was applied, read at the end *)
+| KLong (lit : bytes) (items items_late : list sitem) (full_late : list (list oval))
+        (gets : list (bytes * option (bytes * bytes * bytes))).
 
 (* not Sx.as_N: it uses Z.to_N, whose extracted name collides with the
    driver's use of Byte.to_N (reported) *)
@@ -118,6 +126,12 @@ Definition decode (s : sx) : option case :=
   | SL [SZ 4; calls] =>
       do calls <- as_list (as_triple as_b as_f64 as_fb) calls;
       Some (KTidySeq calls)
+  | SL [SZ 5; SB lit; items; items_late; full_late; gets] =>
+      do items <- as_list as_sitem items;
+      do items_late <- as_list as_sitem items_late;
+      do full_late <- as_list (as_list as_oval) full_late;
+      do gets <- as_list (as_pair as_b (as_opt as_ometa)) gets;
+      Some (KLong lit items items_late full_late gets)
   | _ => None
   end.
 
@@ -178,6 +192,15 @@ Definition seq_ok (tidyf : bytes -> bytes) (rv : b64 -> bytes -> value)
   ok && forallb (fun '(x, got) =>
           option_eqb ometa_eqb (option_map ometa_of (units_find m (tidyf x) key_better)) got) gets.
 
+(** the retained copies of every result, read after the whole text was
+    scanned: every value still is what [rv] says of the pair as written *)
+Definition late_ok (rv : b64 -> bytes -> value) (items : list sitem) (late : list (list oval)) : bool :=
+  list_eqb (list_eqb oval_eqb)
+    (flat_map (fun it => match it with
+       | SBench wr _ _ _ => [map (fun '(u, v) => oval_of (rv v u)) wr]
+       | SUnit _ _ _ => [] end) items)
+    late.
+
 (** the oracle answers every question the model asks: each regexp on the
     written and on the base unit of every measurement *)
 Definition re_complete (terms : list fterm) (orc : re_oracle) (items : list sitem) : bool :=
@@ -220,6 +243,11 @@ Definition corr_ok (c : case) : bool :=
       && seq_ok (fun u => snd (tidy isp b64_one u)) (read_value isp) (terms_match orc terms) items gets
   | KTidySeq calls =>
       forallb (fun '(u, v, t) => fb_eqb (tidy isp v u) t) calls
+  | KLong lit items items_late full_late gets =>
+      let tf := fun u => snd (tidy isp b64_one u) in
+      seq_ok tf (read_value isp) (beq lit) items gets
+      && seq_ok tf (read_value isp) (beq lit) items_late gets
+      && late_ok (read_value isp) items full_late
   end.
 
 (** the specification on what the implementation was seen to do *)
@@ -278,6 +306,16 @@ Definition prop_ok (c : case) : bool :=
       forallb (fun '(u, v, t) =>
         beq (snd t) (spec_unit isp u) && b64_same (fst t) (b64_mul v (spec_factor isp u))
         && (negb (beq (spec_unit isp u) u) || b64_same (fst t) v || b64_is_nan v)) calls
+  (* every measurement of every line, however long the text: reported under
+     its base unit with the scaled value, the pair as written kept iff
+     rewritten, a unit with nothing to normalise passed through untouched -
+     when the record is delivered AND in the caller's retained copies after
+     the rest of the text has been read (measurements of one metric are never
+     split between two unit names) *)
+  | KLong lit items items_late full_late gets =>
+      seq_ok (spec_unit isp) (spec_value isp) (beq lit) items gets
+      && seq_ok (spec_unit isp) (spec_value isp) (beq lit) items_late gets
+      && late_ok (spec_value isp) items full_late
   end.
 
 Definition run_case (s : sx) : N :=
